@@ -4,7 +4,7 @@
     [no_overflow ops]: every operand is a usize and (number of operations + bytes
     they move) < 2^63 — the guard under which the code's unchecked arithmetic is
     exact (src/alloc.rs:98 "does not check for overflow and assumes it will not happen"). *)
-From DivanV Require Import Base.Res Model.Tally Proofs.Tally Proofs.TallyWrap.
+From DivanV Require Import Base.Res Model.Tally Model.Record Proofs.Tally Proofs.TallyWrap Proofs.Record.
 Local Open Scope Z_scope.
 
 (** Every row (grow, shrink, alloc, dealloc) holds exactly the number of such
@@ -145,3 +145,63 @@ Print Assumptions C10_model_sb.
 Theorem C10_ev_model_sb : forall chk evs, ev_sb evs (run_ev chk evs) = true.
 Proof. exact ev_model_sb. Qed.
 Print Assumptions C10_ev_model_sb.
+
+(** * The recording step: what becomes of a thread's snapshot after it is read
+    (Model/Record.v: [for raw_sample in raw_samples] of bench_loop_threaded and
+    SampleCollection).  [ops] is any sequence of rounds (per-thread snapshots
+    in thread order) and clears (a tuning round = clear, then round).  Guard:
+    fewer than 2^32 snapshots are ever recorded (the key is [index as u32]).
+
+    After the sequence: the number of time samples is the number of snapshots
+    of the rounds kept since the last clear; the sample of thread [t] of kept
+    round [i] (index [flat_index]) is associated with exactly that thread's
+    snapshot of that round if the snapshot is non-empty and with nothing
+    otherwise; no key at or beyond the number of samples has an entry; keys
+    are distinct. *)
+Theorem C10_record_exact : forall ops,
+  record_guard ops = true ->
+  s_len (rec_run ops) = N.of_nat (length (concat (kept_rounds ops))) /\
+  (forall i t round snap,
+      nth_error (kept_rounds ops) i = Some round -> nth_error round t = Some snap ->
+      map_get (N.of_nat (flat_index (kept_rounds ops) i t)) (s_map (rec_run ops))
+      = if tallies_empty snap then None else Some snap) /\
+  (forall k, (N.of_nat (length (concat (kept_rounds ops))) <= k)%N -> map_get k (s_map (rec_run ops)) = None) /\
+  keys_distinct (s_map (rec_run ops)) = true.
+Proof. exact record_exact. Qed.
+Print Assumptions C10_record_exact.
+
+(** Injective keying: distinct (round, thread) pairs have distinct sample indices. *)
+Theorem C10_record_keys_injective : forall (RS : list (list info)) i t round i' t' round',
+  nth_error RS i = Some round -> (t < length round)%nat ->
+  nth_error RS i' = Some round' -> (t' < length round')%nat ->
+  flat_index RS i t = flat_index RS i' t' -> i = i' /\ t = t'.
+Proof. exact flat_index_injective. Qed.
+Print Assumptions C10_record_keys_injective.
+
+(** Nothing survives a clear: state and kept rounds are those of the
+    operations after it. *)
+Theorem C10_record_clear_forgets : forall pre post,
+  rec_run (pre ++ RClear :: post) = rec_run post.
+Proof. exact clear_forgets. Qed.
+Print Assumptions C10_record_clear_forgets.
+
+Theorem C10_record_kept_after_clear : forall pre post,
+  kept_rounds (pre ++ RClear :: post) = kept_rounds post.
+Proof. exact kept_after_clear. Qed.
+Print Assumptions C10_record_kept_after_clear.
+
+Theorem C10_record_sb_meaning : forall ops len recs,
+  record_sb ops len recs = true <->
+  (record_guard ops = true ->
+   len = N.of_nat (length (concat (kept_rounds ops))) /\
+   (forall j, (j < length (concat (kept_rounds ops)))%nat ->
+              map_get (N.of_nat j) recs = expected_record (concat (kept_rounds ops)) j) /\
+   (forall kv, In kv recs -> (fst kv < N.of_nat (length (concat (kept_rounds ops))))%N) /\
+   keys_distinct recs = true).
+Proof. exact record_sb_meaning. Qed.
+Print Assumptions C10_record_sb_meaning.
+
+Theorem C10_record_model_sb : forall ops,
+  record_sb ops (s_len (rec_run ops)) (s_map (rec_run ops)) = true.
+Proof. exact record_model_sb. Qed.
+Print Assumptions C10_record_model_sb.
